@@ -27,9 +27,11 @@ MCFSz(d) == CASE d = "empty" -> 1 [] d = "b1" -> 2 [] d = "smallC" -> 2 [] d = "
              [] d = "k300M" -> 150 [] OTHER -> 1
 
 MCInit == Init /\ nops = 0
-MCNext == nops < MaxOps /\ Next /\ nops' = nops + 1
+Tick == nops < MaxOps /\ nops' = nops + 1
+MCCompress   == Tick /\ \E d \in DataClasses, s \in ScratchShapes : Compress(d, s)
+MCDecompress == Tick /\ \E k \in 1..Len(wr), sh \in DecShapes : Decompress(k, sh)
+MCSetLevel   == Tick /\ \E l \in Levels : SetLevel(l)
+MCClose      == Tick /\ Close
+MCNext == MCCompress \/ MCDecompress \/ MCSetLevel \/ MCClose
 MCSpec == MCInit /\ [][MCNext]_mcvars
-
-\* the same properties, stated over the MC variables
-View == <<level, ctx, closed, wr, inputs, ret, act>>
 =============================================================================
